@@ -8,7 +8,7 @@ class C29(C28):
     theorems = ["C29_total_order_modelled_ir", "C29_keyed_fold_per_key", "C29_keyed_reduce_per_key",
                 "C29_interleaving_invariant_fold", "C29_interleaving_invariant_reduce",
                 "C29_keyed_tick_partition_modelled_ir", "C29_proj_concat",
-                "C29_join_bounded_unordered_side_refuted"]
+                "C29_join_bounded_unordered_side_refuted", "C29_repaired_typing_oracle_independent"]
     imports = "From HV Require Import Hydro.Model Hydro.ModelTick Hydro.ModelFlows."
     fn = "chk29"
     prop = "C29"
@@ -28,13 +28,16 @@ class C29(C28):
 
     def to_coq(self, case, res):
         if hydro.FLOWS[case["flow"]].get("unordered"):
+            tr = self.translate()
+            flow = case["flow"]
             if case.get("k") == "syntax":
-                return hydro.emit_term(case["flow"], res, fn="chk_bemit")
+                return 1 if flow in tr.failed else hydro.emit_term_named(flow, tr.name(flow), res, fn="chk_bemit")
             if hydro.broken(res) or len(res["ticks"]) != len(case["ticks"]):
                 return 3
             canon = dict(case, ticks=hydro.canonical_ticks(case))
-            return "(chk29_perm %s %s %s %s)" % (case["flow"], hydro.g_ticks(case), hydro.g_ticks(canon),
+            term = "(chk29_perm %s %s %s %s)" % (tr.name(flow), hydro.g_ticks(case), hydro.g_ticks(canon),
                                                  hydro.g_impl(res))
+            return tr.wrap(flow, case, term)
         return super().to_coq(case, res)
 
     def finding_key(self, case, res):
